@@ -215,11 +215,15 @@ MechSkipSet(kw, leafid) == IF kw.skip # "absent" /\ ~(Mutant = "falsy_skip_omitt
                            ELSE IF MechDefault(kw) = "missing" THEN <<>> ELSE <<"GlomError">>
 \* ret = default        (the object itself; kw.default names which kind of object the caller
 \* passed: "obj" an opaque object, "list" a list, "dictT" a dict holding a T expression that
-\* would fail if evaluated, "t" T itself, "none" None)
+\* would fail if evaluated, "t" T itself, "ntup" a namedtuple holding a T expression, the falsy
+\* ones "zero" 0, "elist" [], "fobj" an object with data whose __bool__ is False; "none" None)
+\* Mutant "falsy_default_dropped": `default or None`-style handling of the default
 \* Mutant "default_arg_val": ret = arg_val(target, default, scope) -- containers are rebuilt,
 \* T-like content is evaluated against the target
 TopValue(d) ==
   IF d = "none" THEN Value("none", 0)
+  ELSE IF Mutant = "falsy_default_dropped" /\ d \in {"zero", "elist", "fobj"} THEN Value("none", 0)
+  ELSE IF Mutant = "default_arg_val" /\ d = "elist" THEN Value("copy", 0)
   ELSE IF Mutant = "default_arg_val" /\ d = "list" THEN Value("copy", 0)
   ELSE IF Mutant = "default_arg_val" /\ d = "t" THEN Value("tgt", 0)
   ELSE IF Mutant = "default_arg_val" /\ d = "dictT" THEN Raised(GlomDoc("PathAccessError"), "new")
